@@ -83,7 +83,44 @@ fn foreign_image_case(p: &Profile, seed: u64, run: u64, ov: &Override, out: &mut
         }
     }
     let mut checked = 0u64;
+    // multi-cluster reads first, on the cold device: across every L2 table
+    // boundary (from an absent table into a present one and back) and across
+    // random stretches
+    {
+        let bs = cfg.bs();
+        let mut spans: Vec<(u64, u64)> = vec![];
+        let mut b = l2n;
+        while b < gcl && spans.len() < 6 {
+            let a0 = b.saturating_sub(rng.range(1, 8));
+            let a1 = (b + rng.range(1, 8)).min(gcl);
+            spans.push((a0, a1));
+            b += l2n;
+        }
+        for _ in 0..3 {
+            let a0 = rng.below(gcl);
+            let a1 = (a0 + rng.range(2, 40)).min(gcl);
+            spans.push((a0, a1));
+        }
+        for (a0, a1) in spans {
+            let off = a0 * cs;
+            let end = (a1 * cs).min(vend).min(off + (2 << 20));
+            if end <= off {
+                continue;
+            }
+            let len = ((end - off) / bs * bs) as usize;
+            if len == 0 {
+                continue;
+            }
+            if !w.do_read_check(off, len, &format!("multi-cluster read of guest clusters {a0}..{a1}"), &["C09"]) {
+                break;
+            }
+            checked += 1;
+        }
+    }
     for g in clusters {
+        if w.failed() {
+            break;
+        }
         let off = g * cs;
         if off >= vend {
             continue;
